@@ -26,9 +26,31 @@ W = {"self.w_en", "self.w_rdy"}
 R_ = {"self.r_en", "self.r_rdy"}
 
 
+REF_INCR = """
+if modulo == 2 ** len(signal):
+    return signal + 1
+else:
+    return Mux(signal == modulo - 1, 0, signal + 1)
+"""
+
+
 def _model(model, cls):
-    fn = model.func(f"{FIFO}::{cls}.elaborate")
+    fn = model.func_expanded(f"{FIFO}::{cls}.elaborate", depth=3, exclude=("_gray_encode", "_gray_decode", "_incr"))
     return fn, ElabModel(fn)
+
+
+def _res(em, e):
+    """text of an expression with the elaborate()'s plain local aliases (x = <expr>) substituted to a fixpoint"""
+    from ..engine.symx import subst
+    if isinstance(e, str):
+        e = ast.parse(e, mode="eval").body
+    al = {k: v for k, v in em.aliases.items() if isinstance(v, ast.AST)}
+    for _ in range(6):
+        n = subst(e, al)
+        if unparse(n) == unparse(e):
+            break
+        e = n
+    return unparse(e)
 
 
 def _main(assigns):
@@ -100,7 +122,7 @@ def _sig_range(call):
 
 def r12b(model, ctx):
     R = "R-12b"
-    fi = model.func(f"{FIFO}::FIFOInterface.__init__")
+    fi = model.func_view(f"{FIFO}::FIFOInterface.__init__")
     for attr in ("w_level", "r_level"):
         hits = [s for s in fi.body if isinstance(s, ast.Assign) and unparse(s.targets[0]) == f"self.{attr}"]
         ok = len(hits) == 1 and _sig_range(hits[0].value) is not None and unparse(_sig_range(hits[0].value)) == "depth + 1"
@@ -120,20 +142,20 @@ def r12b(model, ctx):
         D = "self.depth" if cls == "SyncFIFO" else "inner_depth"
         for ptr in ("produce", "consume"):
             c = em.signals.get(ptr)
-            ok = c is not None and _sig_range(c) is not None and unparse(_sig_range(c)) == D
+            ok = c is not None and _sig_range(c) is not None and _res(em, _sig_range(c)) == _res(em, D)
             ctx.check(ok, R, f"{cls}:{ptr}:range", f"Signal(range({D}))", f"{cls}: {ptr} must be Signal(range({D}))", f"{FIFO}:{fn.lineno}")
         # modulus of the pointer increment == pointer range == storage depth
         for ptr in ("produce", "consume"):
             for a in [a for a in _main(em.assigns) if a.target_text == ptr and a.domain == "sync"]:
                 m = pmatch(f"_incr({ptr}, _V_M)", a.rhs)
-                ok = m is not None and unparse(m["_V_M"]) == D
+                ok = m is not None and _res(em, m["_V_M"]) == _res(em, D)
                 ctx.check(ok, R, f"{cls}:{ptr}:modulus", f"wraps at {D}", f"{cls}: {ptr} must advance with _incr({ptr}, {D}); found "
                           f"{unparse(a.rhs)}", f"{FIFO}:{a.lineno}")
         st = [s for s in em.submodules if s.name == "storage"]
         ok = len(st) == 1
         if ok:
-            kw = {k.arg: unparse(k.value) for k in st[0].call.keywords}
-            ok = kw.get("depth") == D and kw.get("shape") == "self.width"
+            kw = {k.arg: _res(em, k.value) for k in st[0].call.keywords}
+            ok = kw.get("depth") == _res(em, D) and kw.get("shape") == "self.width"
         ctx.check(ok, R, f"{cls}:storage", f"Memory(shape=self.width, depth={D})", f"{cls}: storage must have depth {D} and row "
                   f"shape self.width", f"{FIFO}:{fn.lineno}")
         if cls == "SyncFIFOBuffered":
@@ -145,10 +167,10 @@ def r12b(model, ctx):
             ctx.check(ok, R, f"{cls}:inner_level:range", "Signal(range(inner_depth + 1))", "inner_level must be "
                       "Signal(range(inner_depth + 1))", f"{FIFO}:{fn.lineno}")
     # _incr helper
-    f = model.func(f"{FIFO}::_incr")
-    t = unparse(f)
-    ok = "if modulo == 2 ** len(signal):\n        return signal + 1" in t and "return Mux(signal == modulo - 1, 0, signal + 1)" in t
-    ctx.check(ok, R, "_incr", "wraps at modulo-1 (or naturally for powers of two)", "_incr must wrap to 0 after modulo - 1", f"{FIFO}:{f.lineno}")
+    from ..engine import refsem
+    f, paths = refsem.method_paths(model, f"{FIFO}::_incr", inline=False)
+    refsem.compare(ctx, R, "_incr", f"{FIFO}:{f.lineno}", "_incr", paths, [REF_INCR],
+                   fact="wraps at modulo-1 (or naturally for powers of two)", why="_incr must wrap to 0 after modulo - 1.")
 
 
 def r12c(model, ctx):
@@ -233,7 +255,7 @@ def r12d(model, ctx):
         # read ports: SyncFIFO reads combinationally, buffered synchronously
         rp = em.aliases.get("r_port")
         want = "comb" if cls == "SyncFIFO" else "sync"
-        ok = rp is not None and f"domain='{want}'" in unparse(rp)
+        ok = rp is not None and f"domain='{want}'" in _res(em, rp)
         ctx.check(ok, R, f"{cls}:read-port-domain", want, f"{cls}: the storage read port must be in the {want} domain", f"{FIFO}:{fn.lineno}")
     # depth 1 buffered
     fn, em = _model(model, "SyncFIFOBuffered")
